@@ -54,7 +54,7 @@ NAMES = ["a", "b", "sub", "data", "run", "x.y", "my proj", "src"]
 # generation
 # ----------------------------------------------------------------------------
 def _dirlike(n):
-    return n["t"] in ("dir", "proj", "job", "legacy")
+    return n["t"] in ("dir", "proj", "job", "legacy", "halfproj")
 
 
 def _projlike(n):
@@ -103,7 +103,8 @@ def gen_tree(rng, size):
             jobk[0] += 1
             add({"t": "wsx", "par": par, "k": jobk[0], "flavour": rng.choice(["bak", "pre", "long", "file", "bakfile"])}, pd + 1)
         elif r < 0.72:
-            add({"t": "dir", "par": par, "name": fresh_name(par)}, pd + 1)
+            # sometimes what an interrupted init_project leaves: a `.signac` directory without a configuration - not a project
+            add({"t": "halfproj" if rng.random() < 0.12 else "dir", "par": par, "name": fresh_name(par)}, pd + 1)
         elif r < 0.9:
             add({"t": "proj", "par": par, "name": fresh_name(par)}, pd + 1)
         elif r < 0.95:
@@ -228,7 +229,10 @@ def build(case, R):
     for i, n in enumerate(nodes):
         base = R if n["par"] < 0 else paths[n["par"]]
         t = n["t"]
-        if t in ("dir", "legacy"):
+        if t == "halfproj":
+            p = os.path.join(base, n["name"])
+            os.makedirs(os.path.join(p, ".signac"))
+        elif t in ("dir", "legacy"):
             p = os.path.join(base, n["name"])
             os.makedirs(p)
             if t == "legacy":
